@@ -42,6 +42,8 @@ def _classes(ctx):
     # bounded-exhaustive: every history of <= L calls over 3 names (two colliding), V1 with listfile / V2 without
     add("xa", "bfs", ver=1, lf=1, slack=31, names=3, init=1, minlen=1, maxlen=4 if t else 3)
     add("xb", "bfs", ver=2, lf=0, slack=31, names=3, init=2, minlen=1, maxlen=3 if t else 2)
+    # the same with a name whose spelling is contained in another's (listfile maintenance)
+    add("sb", "bfs", ver=1 + s % 2, lf=1, slack=31, names=3, init=1, minlen=1, maxlen=4 if t else 3, sub=1)
     # random long histories on the 16-slot table, 18 names, all add options
     n = 4 if t else 1
     add("lg", "sim", num=12 * n, ver=1 + s % 2, lf=1, slack=31, names=18, init=2, minlen=40, maxlen=40, enc=1)
@@ -79,7 +81,7 @@ def _gen_one(ctx, item):
         raise core.ToolError(f"stage B: generator class {cls} failed rc={rc}:\n" + core._tail(text))
     out = []
     for i, r in enumerate(sorted(set(json.loads(l)[5:] for l in lines))):
-        if not num and cls == "xa" and (i + ctx.seed) % (6 if ctx.thorough else 3):
+        if not num and cls in ("xa", "sb") and (i + ctx.seed + (cls == "sb")) % ((6 if cls == "xa" else 12) if ctx.thorough else (3 if cls == "xa" else 6)):
             continue            # a seed-rotated residue class of the exhaustive enumeration: quick 1/3 of the
                                 # histories of <= 3 calls, thorough 1/6 of those of <= 4 calls (budget)
         c = json.loads(r)
@@ -134,7 +136,7 @@ def sig(b):
         kinds = [p.get("kind") for p in (r.get("preds") or [])]
         ck = rec.get("ck", 0)
         s["model"] = "asmodel" if 0 < ck <= len(kinds) and kinds[ck - 1] == "unopenable" else "notmodel"
-    elif b.get("ev") != "Read":
+    elif b.get("ev") not in ("Read", "List"):
         # a call whose result no map operation explains: is it the result the model of the code predicted?
         pres = r.get("pres") or []
         oi = rec.get("oi", 0)
@@ -153,6 +155,12 @@ def run(ctx, cases_override=None):
         lambda: expect_violation(ctx, "MC_MpqHashTable_codeA", "Invariant NoDamage is violated"),
         lambda: expect_violation(ctx, "MC_MpqHashTable_codeB", "Invariant ProbeBounded is violated"),
         lambda: expect_violation(ctx, "MC_MpqHashTable_codeC", "Action property AtomicRefines is violated"),
+        # the implementation as it is now: remaining deviations exhibited, the rest refines MpqMap
+        lambda: expect_violation(ctx, "MC_MpqHashTable_codeD", "Invariant ListfileExact is violated"),
+        lambda: expect_violation(ctx, "MC_MpqHashTable_codeE", "Action property OpRefines is violated"),
+        lambda: expect_violation(ctx, "MC_MpqHashTable_codeF", "Action property AtomicRefines is violated"),
+        lambda: ctx.mc("MC_MpqHashTable", cfg="MC_MpqHashTable_codeOK", timeout=900, workers=2,
+                       allow_uncovered=giveup + ("FlushV3Broken", "CloseV3Broken", "CompactV3")),
     ]
     # stage A runs concurrently with generation, build and replay; it is joined before the verdict
     import concurrent.futures as cf
